@@ -24,10 +24,10 @@ LEVEL_NOTE = ('The exit bound is computed per run from the configured grace peri
 RULE = ('random configurations x trigger kinds x trigger instants; non-trivial = the trigger hit a running (started) operator with at least one daemon or in-flight handler, or a failing '
         'startup; distinct = hash of (configuration, trigger, rounded order of the life-cycle events)')
 ASSUMPTIONS = ['ultimate_exiting_timeout is off in simulations (it sends a real SIGKILL)', 'daemon personas are finite']
-GATES = {'runs': 200, 'startup_failures': 20, 'stops_during_startup': 15, 'stop_flag_runs': 40, 'cancel_runs': 20, 'fatal_watch_runs': 20, 'worker_failure_runs': 15, 'root_failure_runs': 15,
-         'peering_failure_runs': 8, 'cleanup_order_checks': 100, 'daemons_stopped': 60, 'withdrawals': 30, 'first_request_checks': 150, 'bounded_exits': 200}
+GATES = {'runs': 200, 'startup_failures': 20, 'stops_during_startup': 15, 'stop_flag_runs': 20, 'cancel_runs': 20, 'fatal_watch_runs': 20, 'worker_failure_runs': 15, 'root_failure_runs': 15,
+         'peering_failure_runs': 8, 'ns_removal_runs': 15, 'api_down_runs': 15, 'cleanup_order_checks': 100, 'daemons_stopped': 60, 'withdrawals': 12, 'first_request_checks': 150, 'bounded_exits': 200}
 
-TRIGGERS = ['stop', 'stop', 'stop', 'cancel', 'watch_error', 'worker_fatal', 'discovery_down', 'keepalive_down', 'startup_fail', 'stop_in_startup']
+TRIGGERS = ['stop', 'stop_api_down', 'stop_in_ns_removal', 'cancel', 'watch_error', 'worker_fatal', 'discovery_down', 'keepalive_down', 'startup_fail', 'stop_in_startup']
 
 
 def rnd_desc(rng: random.Random, i: int) -> dict[str, Any]:
@@ -84,6 +84,12 @@ def rnd_desc(rng: random.Random, i: int) -> dict[str, Any]:
     for k in range(14):
         tl.append([round(1.0 + k * 0.9, 3), 'edit', rng.choice(['o0', 'o1']), {'spec': {'x': k + 1}}])
     faults: list[dict[str, Any]] = []
+    if trig == 'stop_api_down':
+        # the API becomes unreachable (every request and every open stream fails); the operator is then told to stop: it must still exit in time
+        t_trig = round(rng.choice([6.0, 8.0, 11.0]) + rng.choice([0.0, 0.001, 0.13]), 3)
+        faults.append({'client': 'op1', 'match': {}, 'window': [t_trig, 1e9], 'actions': [['conn', {}]]})
+        tl.append([t_trig, 'break', 'conn'])
+        tl.append([round(t_trig + rng.choice([0.0, 0.05, 0.5, 1.5, 4.0]), 3), 'stop', 'op1'])
     if trig in ('stop', 'stop_in_startup'):
         tl.append([t_trig, 'stop', 'op1'])
     elif trig == 'cancel':
@@ -96,8 +102,23 @@ def rnd_desc(rng: random.Random, i: int) -> dict[str, Any]:
         faults.append({'client': 'op1', 'match': {'kind': 'discovery'}, 'actions': [['status', {'status': 500}]]})
     elif trig == 'keepalive_down':
         faults.append({'client': 'op1', 'match': {'kind': 'patch', 'plural': 'clusterkopfpeerings'}, 'window': [t_trig, 1e9], 'actions': [['status', {'status': 500}]]})
+    extra: dict[str, Any] = {}
+    if trig == 'stop_in_ns_removal':
+        # a served namespace disappears while a handler of one of its objects is in flight: the orchestrator is busy draining that watcher
+        # (up to the workers' exit timeout) when the stop request arrives
+        for h in handlers:
+            if h['id'] == 'u1':
+                h['script'] = [['slow', 3.0]] * 50
+        t_trig = round(rng.choice([8.0, 9.5, 11.0]) + rng.choice([0.0, 0.001, 0.13]), 3)
+        tl = [op for op in tl if not (op[1] == 'create' and op[2] == 'o1')] + [[0.0, 'create', 'ns2/o1', {'spec': {'x': 0}}]]
+        tl = [[op[0], op[1], 'ns2/o1', *op[3:]] if op[1] == 'edit' and op[2] == 'o1' else op for op in tl]
+        tl.append([round(t_trig - rng.choice([0.3, 1.0, 2.0]), 3), 'edit', 'ns2/o1', {'spec': {'x': 500}}])
+        tl.append([t_trig, 'ns_del', 'ns2'])
+        tl.append([round(t_trig + rng.choice([0.0, 0.001, 0.05, 0.5, 1.0, 1.9]), 3), 'stop', 'op1'])
+        extra = {'namespaces': ['ns1', 'ns2'], 'operator_kwargs': {'namespaces': ['ns*']}}
+        peering = False
     tl.sort(key=lambda x: x[0])
-    desc: dict[str, Any] = {'seed': rng.randrange(1 << 30), 'handlers': handlers, 'timeline': tl, 'faults': faults, 'quiet': None, 'latency': 0.001, 'end': 'stop', 'exit_wait': 200.0,
+    desc: dict[str, Any] = {**extra, 'seed': rng.randrange(1 << 30), 'handlers': handlers, 'timeline': tl, 'faults': faults, 'quiet': None, 'latency': 0.001, 'end': 'stop', 'exit_wait': 200.0,
                             'settings': {'queueing__idle_timeout': 1.0, 'persistence__consistency_timeout': 0.5, 'networking__error_backoffs': [0.2, 0.3], 'peering__lifetime': 12,
                                          'background__cancellation_polling': 1.0},
                             'trigger': trig, 't_trigger': t_trig, 't_final': 40.0}
@@ -151,7 +172,8 @@ def run_case(case: dict[str, Any]) -> dict[str, Any]:
             viol.append({'mech': 'api-activity-before-startup-finished', 'msg': f"first API request at t={reqs[0].t} ({reqs[0].method} {reqs[0].path}), the last startup handler finished at t={t_startup_end}", 'witness': None})
     if inc.t_ready is not None and (not startup_done or inc.t_ready < t_startup_end - 1e-9):
         viol.append({'mech': 'ready-before-startup-finished', 'msg': f"the ready flag was raised at t={inc.t_ready}; startup handlers succeeded: {sorted(ok_start)} of {n_start} (last finished t={t_startup_end})", 'witness': None})
-    if startup_done and inc.t_ready is None and trig not in ('stop_in_startup',) and (t_end is None or t_end > t_startup_end + 0.01):
+    never_began = t_end is None and inc.task is not None and inc.task.done()       # cancelled before the call had even begun
+    if startup_done and inc.t_ready is None and trig not in ('stop_in_startup',) and not never_began and (t_end is None or t_end > t_startup_end + 0.01):
         viol.append({'mech': 'ready-flag-never-raised', 'msg': f"all startup handlers succeeded by t={t_startup_end}, the ready flag was never raised", 'witness': None})
     if trig == 'startup_fail':
         cov['startup_failures'] = 1
@@ -163,7 +185,7 @@ def run_case(case: dict[str, Any]) -> dict[str, Any]:
 
     # ---- L3: bounded return ------------------------------------------------------------------------------------------------------------
     t_fire: float | None = None
-    if trig in ('stop', 'stop_in_startup'):
+    if trig in ('stop', 'stop_in_startup', 'stop_in_ns_removal', 'stop_api_down'):
         t_fire = inc.t_stop_requested
     elif trig == 'cancel':
         t_fire = desc['t_trigger']
@@ -184,7 +206,7 @@ def run_case(case: dict[str, Any]) -> dict[str, Any]:
     cleanup_grace = sum(1.0 + 0.3 * 3 for h in specs.values() if h['kind'] == 'cleanup')
     bound = 2.0 + 5.0 + 2.0 + daemon_grace + cleanup_grace + 3.0 + (4.0 if trig in ('stop_in_startup', 'startup_fail') else 0.0) + (1.0 if trig in ('discovery_down', 'keepalive_down') else 0.0)
     cov['bounded_exits'] = 1
-    key = {'stop': 'stop_flag_runs', 'cancel': 'cancel_runs', 'watch_error': 'fatal_watch_runs', 'worker_fatal': 'worker_failure_runs', 'discovery_down': 'root_failure_runs',
+    key = {'stop': 'stop_flag_runs', 'stop_api_down': 'api_down_runs', 'stop_in_ns_removal': 'ns_removal_runs', 'cancel': 'cancel_runs', 'watch_error': 'fatal_watch_runs', 'worker_fatal': 'worker_failure_runs', 'discovery_down': 'root_failure_runs',
            'keepalive_down': 'peering_failure_runs'}.get(trig)
     if key:
         cov[key] = 1
@@ -192,18 +214,18 @@ def run_case(case: dict[str, Any]) -> dict[str, Any]:
         t_fire = None      # cancelled before the call had even begun
     if t_fire is not None:
         if t_end is None or t_end > t_fire + bound:
-            stopped_at_final = inc.t_stop_requested is not None and trig not in ('stop', 'stop_in_startup') and inc.t_stop_requested > t_fire + bound - 1e-6
-            viol.append({'mech': 'operator-lingers-after-failure' if trig not in ('stop', 'stop_in_startup', 'cancel') else 'exit-not-bounded',
+            stopped_at_final = inc.t_stop_requested is not None and trig not in ('stop', 'stop_in_startup', 'stop_in_ns_removal', 'stop_api_down') and inc.t_stop_requested > t_fire + bound - 1e-6
+            viol.append({'mech': 'operator-lingers-after-failure' if trig not in ('stop', 'stop_in_startup', 'stop_in_ns_removal', 'stop_api_down', 'cancel') else 'exit-not-bounded',
                          'msg': f"trigger {trig} at t={t_fire}: kopf.operator() returned at t={t_end} (bound: {round(t_fire + bound, 3)})"
                                 + ("; it only ended because the harness stopped it at the end of the run" if stopped_at_final else ''), 'witness': None})
         # ---- L4: failures are re-raised -----------------------------------------------------------------------------------------------------
         if trig in ('watch_error', 'worker_fatal', 'discovery_down', 'keepalive_down') and t_end is not None and t_end <= t_fire + bound and inc.exc is None and not inc.cancelled:
             viol.append({'mech': 'failure-not-reraised', 'msg': f"trigger {trig} at t={t_fire}: kopf.operator() returned normally at t={t_end} instead of re-raising the failure", 'witness': None})
-        if trig == 'stop' and inc.exc is not None and not any(specs[h]['kind'] == 'cleanup' and specs[h]['script'][0][0] in ('arb', 'perm') for h in specs):
+        if trig in ('stop', 'stop_in_ns_removal') and inc.exc is not None and not any(specs[h]['kind'] == 'cleanup' and specs[h]['script'][0][0] in ('arb', 'perm') for h in specs):
             viol.append({'mech': 'stop-raises', 'msg': f"a plain stop request made kopf.operator() raise {inc.exc!r}", 'witness': None})
 
     # ---- L5: cleanup runs last -------------------------------------------------------------------------------------------------------------
-    graceful = trig in ('stop', 'watch_error', 'worker_fatal', 'discovery_down', 'keepalive_down') and startup_done and t_end is not None
+    graceful = trig in ('stop', 'stop_in_ns_removal', 'watch_error', 'worker_fatal', 'discovery_down', 'keepalive_down') and startup_done and t_end is not None
     n_clean = sum(1 for h in specs.values() if h['kind'] == 'cleanup')
     if graceful and n_clean and t_fire is not None and t_end <= t_fire + bound:
         cov['cleanup_order_checks'] = 1
